@@ -47,7 +47,7 @@ fn site_finding(model: &mut Model, text: &str, msg: &str) -> Option<&'static str
         }
     }
     // outside the modelled fragment: panic site and input feature
-    if msg.contains("section block panic") {
+    if msg.contains("section block panic") || msg.contains("[at sections_builder.rs]") {
         let item_starts_with_block = text.lines().any(|l| {
             let t = l.trim_start().trim_start_matches(|c| c == '>' || c == ' ');
             let rest = if let Some(r) = t.strip_prefix(|c| c == '-' || c == '*' || c == '+') {
@@ -70,7 +70,7 @@ fn site_finding(model: &mut Model, text: &str, msg: &str) -> Option<&'static str
         } else {
             None
         }
-    } else if msg.contains("to have element") {
+    } else if msg.contains("to have element") || msg.contains("[at reader.rs]") {
         match crate::events::compare_reader(model, text) {
             Some(c) if c.model_error && c.grammar != "complete" => Some("D21"),
             _ => None,
@@ -471,7 +471,8 @@ pub fn run(ctx: &Ctx, model: &mut Model, rep: &mut Report) {
                 let imp = c01::format_single("n", &text, "");
                 rep.correspondence_cases += 1;
                 let model_fails = reply.contains("(error") && !reply.contains("unmodelled");
-                let model_site = if reply.contains("sectionBlock") { "section block panic" } else { "" };
+                // (the site is compared by source file: messages get reworded)
+                let model_site = if reply.contains("sectionBlock") { "[at sections_builder.rs]" } else { "" };
                 match (&imp, model_fails) {
                     (Ok(_), true) => rep.disagree(json!({"op": "build outcome", "text": text, "model": reply.chars().take(200).collect::<String>(), "impl": "ok"})),
                     (Err(e), false) if !reply.contains("unmodelled") => rep.disagree(json!({"op": "build outcome", "text": text, "model": "ok", "impl": e})),
